@@ -131,12 +131,15 @@ func verifMonoNs() int64 {
 	return ts.Sec*1e9 + ts.Nsec
 }
 
-func verifInventory(root string) (count int64, size int64, paths []string) {
+func verifInventory(root string) (count int64, size int64, paths []string, rootSize int64) {
+	rootSize = -1
 	filepath.Walk(root, func(p string, info os.FileInfo, err error) error {
 		if err != nil || info == nil {
 			return nil
 		}
 		if p == root && info.IsDir() {
+			// The root directory itself is reported separately.
+			rootSize = info.Size()
 			return nil
 		}
 		count++
@@ -160,6 +163,9 @@ type verifRecord struct {
 	Count  *int64   `json:"count,omitempty"`
 	Size   *int64   `json:"size,omitempty"`
 	Paths  []string `json:"paths,omitempty"`
+	// Size of the inventoried root if it is a directory (not included in
+	// Count/Size), else -1.
+	RootDirSize *int64 `json:"root_dir_size,omitempty"`
 	Crash  string   `json:"crash,omitempty"`
 }
 
@@ -211,8 +217,8 @@ func VerifPoint(name string, detail ...string) {
 			rec.Crash = s.crashSig.String()
 		}
 		if s.inventory && strings.HasPrefix(name, "vdr:remove") && len(detail) > 0 {
-			c, sz, paths := verifInventory(detail[0])
-			rec.Count, rec.Size, rec.Paths = &c, &sz, paths
+			c, sz, paths, rs := verifInventory(detail[0])
+			rec.Count, rec.Size, rec.Paths, rec.RootDirSize = &c, &sz, paths, &rs
 		}
 		if b, err := json.Marshal(&rec); err == nil {
 			b = append(b, '\n')
